@@ -266,6 +266,10 @@ class C14(Check):
         dev = PowHsm(seed=b"c14")
         w = World(dev)
         proto = harness.make_protocol(w)
+        if ref_err is not None:
+            # non-initial state: a reconnection is pending; a transaction that cannot be decoded
+            # must still be answered without contacting the device (not even to reconnect)
+            proto.report_comm_issue()
         base_log = len(w.log)
         req = reqs.sign_request(reqs.PATHS[0], raw.hex(), 0, "legacy", self.receipt, self.proof)
         if len(raw) == 0:
